@@ -26,7 +26,7 @@ DEFAULT_PROFILE = {
     'max_books': 2, 'max_sheets': 2, 'win': 4, 'min_cells': 3, 'max_cells': 10,
     'p_formula': .65, 'p_arr': .12, 'p_name': .2, 'p_cross': .35,
     'p_text': .08, 'p_bool': .06, 'p_frac': .15, 'p_err': .05,
-    'p_back': 0.0, 'depth': 2,
+    'p_back': 0.0, 'depth': 2, 'p_alias': 0.0,
     'w_ref': 5, 'w_num': 1, 'w_op': 4, 'w_aggr': 4, 'w_if': 2, 'w_iferror': 1,
     'w_iserror': .5, 'w_name': 1.5, 'w_ifs': 0, 'w_ifna': 0,
 }
@@ -295,6 +295,13 @@ class Gen:
                             for q in rect_cells(t)):
                         continue
                     world['names'].append({'b': t[1], 't': t, 'avail': i + 1})
+                    # a chained name: NAME_k := NAME_j (same target; 'alias'
+                    # only changes how the name's own formula is spelt)
+                    if rng.chance(p.get('p_alias', 0)) and \
+                            len(world['names']) < len(NAMES):
+                        world['names'].append({
+                            'b': t[1], 't': list(t), 'avail': i + 1,
+                            'alias': len(world['names']) - 1})
         # cells keep only slots actually filled (all are)
         return world
 
@@ -365,7 +372,11 @@ def dict_items(world, placement):
             items.append((key, c['v']))
     for k, n in enumerate(world['names']):
         t = n['t']
-        items.append((P.name_id(n['b'], k), '=' + R.ref(t, None)))
+        if n.get('alias') is not None:
+            items.append((P.name_id(n['b'], k),
+                          '=' + P.name_id(n['b'], n['alias'])))
+        else:
+            items.append((P.name_id(n['b'], k), '=' + R.ref(t, None)))
     for k, n in enumerate(world.get('vnames', [])):
         items.append((P.vname_id(n['b'], k), R.formula(n['f'], (n['b'], 0))))
     return items
@@ -469,6 +480,8 @@ def xlsx_books(world, placement, sheet_orders=None, styled=True,
                 text = "'[%s]%s'!%s" % (P.file(tb), name,
                                        P.rect_a1(tb, ts, r1, c1, r2, c2, 15))
             nm = placement['names'][k]
+            if n.get('alias') is not None:
+                text = placement['names'][n['alias']]
             wb.defined_names[nm] = DefinedName(nm, attr_text=text)
         for k, n in enumerate(world.get('vnames', [])):
             if n['b'] != b:
